@@ -132,7 +132,28 @@ def run(ck):
     final = [n for n in g.nodes if n.kind == 'stmt' and isinstance(n.ast, ast.Raise)
              and any(v == g.raise_exit.id for v, _ in g.succ[n.id])]
     late = [n for n in final if not g.has_guard(n, 'self._simtask is not None', True)]
-    ok = bool(late) and all(n.ast.exc is not None and norm(n.ast.exc) == 'self._error' for n in late)
+    rdf = ck.rdefs(rf.fid, 'M1')
+    mainh = [n for n in g.nodes if n.kind == 'handler' and g.pred[n.id] and
+             set(handler_types(n.ast)) >= {'Exception', 'CancelledError'}]
+
+    def _is_slot(node_, e_):
+        """self._error, or a local read from it after the main try was left (the slot is write-once
+        - R09.1 - so a snapshot taken there is the recorded error)"""
+        if e_ is None:
+            return False
+        if norm(e_) == 'self._error':
+            return True
+        if isinstance(e_, ast.Name):
+            vals_ = rdf.value_exprs(node_, e_.id)
+            defs_ = rdf.defs_at(node_, e_.id)
+            in_try = set()
+            for tr_ in [x for x in own_nodes(rf.node) if isinstance(x, ast.Try) and any(
+                    set(handler_types(h)) >= {'Exception', 'CancelledError'} for h in x.handlers)]:
+                in_try |= {id(y) for st_ in tr_.body for y in ast.walk(st_)}
+            return bool(vals_) and all(not isinstance(v_, str) and norm(v_) == 'self._error' for v_ in vals_) \
+                and all(id(d.ast) not in in_try for d in defs_)
+        return False
+    ok = bool(late) and all(_is_slot(n, n.ast.exc) for n in late)
     ck.ob(R2, f"{rf.fid} :: final raise", ok,
           "run_forever ends with `raise self._error` (the recorded first error)" if ok else
           f"run_forever raises {[norm(n.ast.exc) for n in late]} instead of the recorded error",
@@ -192,6 +213,16 @@ def run(ck):
     keep = nodes_where(gr, lambda n: isinstance(n.ast, ast.Assign) and
                        norm(n.ast.targets[0]) == 'run_error' and not is_const(n.ast.value, None))
     ok = bool(keep) and all(gr.has_guard(k, 'run_error is None', True) for k in keep)
+    # the other idiom: every error is appended to a list in collection order and the FIRST item is
+    # raised after the loop
+    lst = None
+    if not keep and coll:
+        apps_ = nodes_where(gr, lambda n: any(call_name(c) == 'append' and len(c.args) == 1
+                                              for c in node_calls(n)) and gr.dominates(coll[0], n))
+        if len(apps_) == 1:
+            lst = recv(node_calls(apps_[0], 'append')[0])
+            hn = [h for h in gr.nodes if h.kind == 'handler' and gr.pred[h.id] and gr.dominates(h, apps_[0])]
+            ok = bool(hn) and norm(node_calls(apps_[0], 'append')[0].args[0]) == (hn[-1].ast.name or '')
     ck.ob(R2, f"{run.fid} :: first error kept", ok,
           "run_error is assigned only while it is None" if ok else
           "a later task error replaces the first one", run, keep[0].ast if keep else run.node)
@@ -201,6 +232,9 @@ def run(ck):
     inner_h = [n for n in gr.nodes if n.kind == 'handler' and gr.pred[n.id]
                and coll and gr.dominates(coll[0], n)]
     types = sorted(t for h in inner_h for t in handler_types(h.ast))
+    if not fin and lst:
+        fin = nodes_where(gr, lambda n: isinstance(n.ast, ast.Raise) and n.ast.exc is not None and
+                          norm(n.ast.exc) == f'{lst}[0]' and gr.has_guard(n, lst, True), kinds=('stmt',))
     ok = bool(fin) and types == ['CancelledError', 'Exception']
     ck.ob(R2, f"{run.fid} :: result", ok,
           "cancellations are absorbed, the first error is raised after the loop, else None" if ok
